@@ -19,7 +19,9 @@ RULE = ("programs from vf.gen.ProgGen (all action/message API styles, typed fiel
         "serialize_task_id/continue_task/preserve_context, failures by Exception and BaseException classes crossing 0-5 "
         "enclosing actions) are run against the real API with a FileDestination on a real file (binary, unbuffered binary, "
         "text); lines are decoded with the stdlib json module and parsed with Parser.parse_stream; the parsed forest must "
-        "equal the interpreter's ground-truth forest. non-trivial = depth>=2, >=2 API styles and >=1 failed action; "
+        "equal the interpreter's ground-truth forest. Part of the calls name an explicit Logger object or use the camelCase aliases, part of "
+        "the Message objects are first written to a separate sink logger; a share of the programs is a chain of 20-40 nested actions or one "
+        "action with 100-400 children, runs with global fields, or has a second file destination joining midway. non-trivial = depth>=2, >=2 API styles and >=1 failed action; "
         "distinct by hash of the program shape")
 ASSUMPTIONS = ["timestamps and uuids are not compared", "field values restricted to the JSON-native domain",
                "no failing serializers or destinations (owned by C07/C08/C13)"]
